@@ -443,7 +443,7 @@ def iota_wrappers(ctx):
                 return None if p.is_err() else 'a failed core operation is reported as success'
             t = p.term()
             return None if is_sub_c06(t, c.ret) else 'outcome of the core operation not returned'
-        A.require('IotaDocument::%s/forwards-to-the-core-document-on-every-path' % nm, paths, r_w, replay=R('[iota-wrapper]'))
+        A.require('IotaDocument::%s/forwards-to-the-core-document-on-every-path' % nm, paths, r_w, replay=R('[iota-wrapper] after %s ' % ('revoke' if nm == 'revoke_credentials' else 'unrevoke')))
 
 
 def is_sub_c06(t, want):
